@@ -14,8 +14,8 @@ from __future__ import annotations
 ID = "C13"
 LEVEL = "fault_enumeration"
 TIERS = {
-    "quick": {"runs": 1200, "wall": 80, "chunk": 20, "shrink_s": 20, "run_cap_s": 60},
-    "thorough": {"runs": 120_000, "wall": 840, "chunk": 50, "shrink_s": 60, "run_cap_s": 60},
+    "quick": {"runs": 1200, "wall": 80, "chunk": 20, "shrink_s": 20, "run_cap_s": 120},
+    "thorough": {"runs": 120_000, "wall": 840, "chunk": 50, "shrink_s": 60, "run_cap_s": 120},
 }
 RULE = (
     "one run = one measurement-based rule x one random input state on its target wires x one random wire "
